@@ -1095,7 +1095,42 @@ func (g *TransferGen) RunForge() {
 		}
 		g.stat("script.forge.three-segment-class")
 		g.tokenOracles()
+		g.runBaseClassCollision()
 	}
+}
+
+// runBaseClassCollision: chain B holds, in escrow, its own native <class>/<id> (sent on to C) and a
+// voucher of A's native token of the same class name and id (received from A). Forwarding that
+// voucher B -> C to an undecodable receiver fails on C; the refund on B must give the *voucher* back
+// to its sender and leave B's own escrowed token alone.
+func (g *TransferGen) runBaseClassCollision() {
+	w := g.w
+	a, b, c := 0, 1, 2
+	A, B, C := g.chain(a), g.chain(b), g.chain(c)
+	class, id := "kitty2", "tom"
+	if w.NftIssue(A, 0, class, false).Code != 0 || w.NftIssue(B, 0, class, false).Code != 0 {
+		return
+	}
+	g.nftAfterMint(A, class, id, w.NftMint(A, 0, class, id, "uri", w.Acct(a, 1).String()))
+	g.nftAfterMint(B, class, id, w.NftMint(B, 0, class, id, "uri", w.Acct(b, 2).String()))
+	t1 := g.nftXfer(a, 1, class, id, w.Acct(b, 1).String(), B.ChainName, "")
+	if t1 == nil || !g.deliver(t1) {
+		return
+	}
+	t2 := g.nftXfer(b, 2, class, id, w.Acct(c, 2).String(), C.ChainName, "")
+	if t2 == nil || !g.deliver(t2) {
+		return
+	}
+	g.tokenOracles()
+	vk := g.voucherOn(b, id, w.Acct(b, 1).String())
+	if vk == "" {
+		return
+	}
+	if t3 := g.nftXfer(b, 1, vk, id, "not-an-address", C.ChainName, ""); t3 != nil {
+		g.deliver(t3)
+	}
+	g.stat("script.base-class-collision")
+	g.tokenOracles()
 }
 
 // RunRoundTrip: send a native token of a random class the NFT module accepts along a random
